@@ -141,3 +141,14 @@ Theorem C17_hutch_call_is_model : forall (St T : Type) (seed_st : Z -> St) (stre
   = (fin (hutch T zero add mul n bs k A cont max_iters (key_probe St T seed_st stream sha zero n bs sgn (dflt42 sha key))), g).
 Proof. exact hutch_call_is_model. Qed.
 Print Assumptions C17_hutch_call_is_model.
+
+(* mean form: the value actually returned, diag_sum / (i * bs), for any division that inverts repeated addition *)
+Theorem C17_hutch_exact_mean : forall (R : Type) (RR : Ring R) (divn : R -> nat -> R),
+  (forall m x, 0 < m -> divn (nmul m x) m = x) ->
+  forall (n bs : nat) (A : nat -> nat -> R) (probe : nat -> nat -> nat -> R),
+  (forall i j, i < n -> j < n -> i <> j -> A i j = r0) ->
+  (forall t j b, j < n -> b < bs -> rmul (probe t j b) (probe t j b) = r1) ->
+  forall m i, i < n -> 0 < m * bs ->
+  divn (dsum (blocks n bs 0%Z A probe m) i) (it (blocks n bs 0%Z A probe m) * bs) = A i i.
+Proof. exact @hutch_exact_mean. Qed.
+Print Assumptions C17_hutch_exact_mean.
